@@ -37,6 +37,17 @@ func LiteralFamily(ctx *core.Ctx) {
 	es = append(es, core.EList(), core.EMap(), core.EList(core.EList(), core.EMap()), core.EList(core.EInt(1), core.EStr("a"), core.EList(core.EFloat(5, 1)), core.EList(core.ENull())),
 		core.EMap("a", core.EInt(5), "b", core.EList(core.EBool(true)), "c", core.EMap()), core.EMap("k", core.EMap("j", core.EStr("<v>"))),
 		sp(core.EList(core.EInt(1), core.EInt(2)), "[1, 2,]"), sp(core.EMap("a", core.EInt(1)), "['a': 1,]"), sp(core.EList(core.EInt(1)), "[ 1 ]"))
+	// maps whose escaped keys sit in every position, and lookups of those keys
+	for _, ks := range [][]string{{"a", "it's"}, {"it's", "a"}, {"a", "b\\c", "z"}, {"k", "t\tb"}, {"x", "q\"q", "y"}, {"a", "é"}} {
+		var kv []interface{}
+		for i, k := range ks {
+			kv = append(kv, k, core.EInt(i+1))
+		}
+		es = append(es, core.EMap(kv...))
+		for _, k := range ks {
+			es = append(es, core.EFn("isNonnull", core.EVar("mm", core.AExpr(core.EStr(k), false))))
+		}
+	}
 	es = append(es, core.ENull(), core.EBool(true), core.EBool(false))
 	glob := map[string]core.V{"G_INT": core.VInt(42), "G_NEG": core.VInt(-7), "G_STR": core.VStr("g<s>"), "G_EMPTY": core.VStr(""), "ns.G_BOOL": core.VBool(false),
 		"a.b.G_FLOAT": core.VFloat(5, 1), "G_NULL": core.VNull(), "G_BIG": core.VBigInt("9007199254740991")}
@@ -48,7 +59,7 @@ func LiteralFamily(ctx *core.Ctx) {
 		// bare, and as operand of a few operators so that the value (not only the text) matters
 		variants := []core.E{e, core.EBin("add", e, core.EStr("|")), core.EBin("eq", e, e), core.EList(e), core.ETern(e, core.EStr("T"), core.EStr("F"))}
 		for j, v := range variants {
-			env := &core.Env{Vars: map[string]core.V{}, Glob: glob}
+			env := &core.Env{Vars: map[string]core.V{"mm": core.VMap(map[string]core.V{"a": core.VInt(1), "it's": core.VInt(2), "b\\c": core.VInt(3), "t\tb": core.VInt(4), "q\"q": core.VInt(5), "é": core.VInt(6)})}, Glob: glob}
 			cs := &core.ExprCase{Family: "F4-literals", E: v, Env: env, Src: core.Unparse(v, core.Style{Tight: (i+j)%2 == 0})}
 			core.RunExprCase(cs, j%2 == 0)
 			cases = append(cases, cs)
